@@ -38,11 +38,11 @@ FatalLine  == \E ln \in OfKind("fatalI") : AddLine(ln)
 UserWarn   == \E ln \in OfKind("uwarn") : AddLine(ln)
 UserErr    == \E ln \in OfKind("uerr") : AddLine(ln)
 UserFatal  == \E ln \in OfKind("ufatal") : AddLine(ln)
-FwdLine    == \E ln \in OfKind("fwd") : AddLine(ln)
+FwdLine    == \E ln \in OfKind("fwd") \cup OfKind("undef") : AddLine(ln)
 ErrBurst   == \E ln \in OfKind("burstE") : AddLine(ln)
 WarnBurst  == \E ln \in OfKind("burstW") \cup OfKind("burstU") : AddLine(ln)
 ExpectLine == \E ln \in OfKind("expect") \cup OfKind("endexpect") : AddLine(ln)
-FlagLine   == \E ln \in OfKind("flag") \cup OfKind("probe") : AddLine(ln)
+FlagLine   == \E ln \in OfKind("flag") \cup OfKind("probe") \cup OfKind("use") : AddLine(ln)
 OpenLine   == \E ln \in OfKind("open") : AddLine(ln)
 
 \* pass 2 re-reads the same text
@@ -106,18 +106,21 @@ OptsReport == {[BaseOpt EXCEPT !.werror = w, !.q = q, !.E = e, !.x = x, !.gnu = 
                  nn \in BOOLEAN, l \in BOOLEAN}
 OptsReportQ == {o \in OptsReport : ~o.n /\ ~o.L}
 Bursts == {2, 255, 256, 65535, 65536, 65537}
-KindsDiag == {S("ok"), S("warn"), S("err"), S("fatalI"), S("uwarn"), S("uerr"), S("ufatal"), S("fwd"),
+KindsDiag == {S("ok"), S("warn"), S("err"), S("fatalI"), S("uwarn"), S("uerr"), S("ufatal"), S("fwd"), S("undef"),
               S("expect"), S("endexpect")}
              \cup {Ln("burstE", n, "", "") : n \in Bursts} \cup {Ln("burstW", 65536, "", ""), Ln("burstU", 2, "", ""), Ln("burstW", 2, "", "")}
-KindsSmall == {S("ok"), S("warn"), S("err"), S("uwarn"), S("ufatal"), S("fwd"), Ln("burstE", 2, "", "")}
-Flags == {"dotted", "relaxed"}
+KindsSmall == {S("ok"), S("warn"), S("err"), S("uwarn"), S("ufatal"), S("fwd"), S("undef"), Ln("burstE", 2, "", "")}
+Flags == {"dotted"}                      \* model checking: one mode flag (all behave alike in the model)
+Tables == {"macro", "func"}                 \* per-file tables: `flag f` defines an entry, `use f` needs it
 OpenKinds == {"if0", "if1", "mac", "rept", "sec", "str", "sav", "pha"}
 KindsHist == {S("ok"), S("err"), S("fwd"), S("expect")} \cup {Ln("flag", 0, f, "") : f \in Flags} \cup {Ln("probe", 0, f, "") : f \in Flags}
+             \cup {Ln("flag", 0, f, "") : f \in Tables} \cup {Ln("use", 0, f, "") : f \in Tables}
              \cup {Ln("open", 0, "", t) : t \in OpenKinds}
 \* all mode flags the replay renders (model checking uses two of them: they behave alike in the model)
 FlagsAll == {"dotted", "relaxed", "padding", "supmode", "org", "radix", "charset", "sym", "cpu"}
 KindsHistAll == {S("ok"), S("err"), S("fwd"), S("expect")} \cup {Ln("flag", 0, f, "") : f \in FlagsAll}
                 \cup {Ln("probe", 0, f, "") : f \in FlagsAll} \cup {Ln("open", 0, "", t) : t \in OpenKinds}
+                \cup {Ln("flag", 0, f, "") : f \in Tables} \cup {Ln("use", 0, f, "") : f \in Tables}
 KindsAll == KindsDiag \cup KindsHist
 
 Finished == pc = "done"
